@@ -79,35 +79,52 @@ structure InDomainFile (ld : LayoutDec) (ef : EnvF) (F : FileFont) : Prop where
 /-! ### the container -/
 
 
-/-- the table map of `writeTables`, as a function of the table bodies (`cm`: the optional cmap) -/
+/-- the table map of `writeTables`, as a function of the table bodies (`cm`, `gd`, `gs`, `gp`: the
+optional cmap / GDEF / GSUB / GPOS tables) -/
 def tableEntries (side : List (Bytes × Bytes)) (hhea hmtx : Bytes) (cm : Option Bytes)
-    (os2 name post glyf loca maxp head : Bytes) : List Header.Entry :=
+    (os2 name post glyf loca maxp head : Bytes) (gd gs gp : Option Bytes) : List Header.Entry :=
   [⟨tag "hhea", some hhea⟩, ⟨tag "hmtx", some hmtx⟩, ⟨tag "cmap", cm⟩, ⟨tag "OS/2", some os2⟩,
    ⟨tag "name", some name⟩, ⟨tag "post", some post⟩, ⟨tag "glyf", some glyf⟩, ⟨tag "loca", some loca⟩] ++
-  side.map (fun t => ⟨t.1, some t.2⟩) ++ [⟨tag "maxp", some maxp⟩, ⟨tag "head", some head⟩]
+  side.map (fun t => ⟨t.1, some t.2⟩) ++
+  [⟨tag "maxp", some maxp⟩, ⟨tag "head", some head⟩, ⟨tag "GDEF", gd⟩, ⟨tag "GSUB", gs⟩, ⟨tag "GPOS", gp⟩]
 
-/-- the cmap table, if it is written -/
-def cmapBody : Option Bytes → List (Bytes × Bytes)
-  | some b => [(tag "cmap", b)]
+/-- an optional table, if it is written -/
+def optBody (n : Bytes) : Option Bytes → List (Bytes × Bytes)
+  | some b => [(n, b)]
   | none => []
+
+theorem mem_optBody (n : Bytes) (o : Option Bytes) (t : Bytes × Bytes) (h : t ∈ optBody n o) :
+    t.1 = n ∧ o = some t.2 := by
+  cases o with
+  | none => cases h
+  | some b =>
+    simp only [optBody, List.mem_cons, List.not_mem_nil, or_false] at h
+    subst h
+    exact ⟨rfl, rfl⟩
 
 /-- the tables that are written -/
 def tableBodies (side : List (Bytes × Bytes)) (hhea hmtx : Bytes) (cm : Option Bytes)
-    (os2 name post glyf loca maxp head : Bytes) : List (Bytes × Bytes) :=
-  [(tag "hhea", hhea), (tag "hmtx", hmtx)] ++ cmapBody cm ++
+    (os2 name post glyf loca maxp head : Bytes) (gd gs gp : Option Bytes) : List (Bytes × Bytes) :=
+  [(tag "hhea", hhea), (tag "hmtx", hmtx)] ++ optBody (tag "cmap") cm ++
   [(tag "OS/2", os2), (tag "name", name), (tag "post", post), (tag "glyf", glyf), (tag "loca", loca)] ++
-  side ++ [(tag "maxp", maxp), (tag "head", head)]
+  side ++ [(tag "maxp", maxp), (tag "head", head)] ++
+  optBody (tag "GDEF") gd ++ optBody (tag "GSUB") gs ++ optBody (tag "GPOS") gp
 
 theorem sideTag_length : ∀ n ∈ sideTags, n.length = 4 := by decide
 theorem sideTag_printable : ∀ n ∈ sideTags, ∀ b ∈ n, (0x20 : UInt8) ≤ b ∧ b ≤ 0x7e := by decide
 theorem sideTag_ne_head : ∀ n ∈ sideTags, (n == Header.headTag) = false := by decide
 
+/-- tags of the tables that are always written -/
+def mandTags : List Bytes :=
+  [tag "hhea", tag "hmtx", tag "OS/2", tag "name", tag "post", tag "glyf", tag "loca", tag "maxp", tag "head"]
+
 def fixedTags : List Bytes :=
   [tag "hhea", tag "hmtx", tag "cmap", tag "OS/2", tag "name", tag "post", tag "glyf", tag "loca", tag "maxp",
-   tag "head"]
+   tag "head", tag "GDEF", tag "GSUB", tag "GPOS"]
 
 theorem fixed_not_side : ∀ a ∈ fixedTags, a ∉ sideTags := by decide
 theorem fixed_printable : ∀ n ∈ fixedTags, ∀ b ∈ n, (0x20 : UInt8) ≤ b ∧ b ≤ 0x7e := by decide
+theorem mand_fixed : ∀ a ∈ mandTags, a ∈ fixedTags := by decide
 
 theorem named_side (side : List (Bytes × Bytes)) (hs : ∀ t ∈ side, t.1 ∈ sideTags) :
     Header.named (side.map fun t => ⟨t.1, some t.2⟩) = side := by
@@ -120,22 +137,23 @@ theorem named_side (side : List (Bytes × Bytes)) (hs : ∀ t ∈ side, t.1 ∈ 
     simp only [List.map_cons, List.filterMap_cons, h4, if_true, this]
 
 theorem named_tableEntries (side : List (Bytes × Bytes)) (hs : ∀ t ∈ side, t.1 ∈ sideTags)
-    (hhea hmtx : Bytes) (cm : Option Bytes) (os2 name post glyf loca maxp head : Bytes) :
-    Header.named (tableEntries side hhea hmtx cm os2 name post glyf loca maxp head) =
-      tableBodies side hhea hmtx cm os2 name post glyf loca maxp head := by
+    (hhea hmtx : Bytes) (cm : Option Bytes) (os2 name post glyf loca maxp head : Bytes)
+    (gd gs gp : Option Bytes) :
+    Header.named (tableEntries side hhea hmtx cm os2 name post glyf loca maxp head gd gs gp) =
+      tableBodies side hhea hmtx cm os2 name post glyf loca maxp head gd gs gp := by
   have h := named_side side hs
   unfold Header.named at h ⊢
   unfold tableEntries tableBodies
   rw [List.filterMap_append, List.filterMap_append, h]
-  cases cm <;> rfl
+  cases cm <;> cases gd <;> cases gs <;> cases gp <;> simp [optBody] <;> rfl
 
 theorem keys_tableEntries (side : List (Bytes × Bytes)) (hs : ∀ t ∈ side, t.1 ∈ sideTags)
     (hnd : (side.map (·.1)).Nodup) (hhea hmtx : Bytes) (cm : Option Bytes)
-    (os2 name post glyf loca maxp head : Bytes) :
-    ((tableEntries side hhea hmtx cm os2 name post glyf loca maxp head).map (·.name)).Nodup := by
-  have hmap : (tableEntries side hhea hmtx cm os2 name post glyf loca maxp head).map (·.name) =
+    (os2 name post glyf loca maxp head : Bytes) (gd gs gp : Option Bytes) :
+    ((tableEntries side hhea hmtx cm os2 name post glyf loca maxp head gd gs gp).map (·.name)).Nodup := by
+  have hmap : (tableEntries side hhea hmtx cm os2 name post glyf loca maxp head gd gs gp).map (·.name) =
       [tag "hhea", tag "hmtx", tag "cmap", tag "OS/2", tag "name", tag "post", tag "glyf", tag "loca"] ++
-        side.map (·.1) ++ [tag "maxp", tag "head"] := by
+        side.map (·.1) ++ [tag "maxp", tag "head", tag "GDEF", tag "GSUB", tag "GPOS"] := by
     unfold tableEntries
     simp only [List.map_append, List.map_map, List.map_cons, List.map_nil]
     rfl
@@ -154,79 +172,84 @@ theorem keys_tableEntries (side : List (Bytes × Bytes)) (hs : ∀ t ∈ side, t
     subst e
     rcases List.mem_append.mp ha with ha | ha
     · exact (by decide : ∀ a ∈ [tag "hhea", tag "hmtx", tag "cmap", tag "OS/2", tag "name", tag "post", tag "glyf",
-        tag "loca"], a ∉ [tag "maxp", tag "head"]) a ha hb
-    · exact (by decide : ∀ a ∈ [tag "maxp", tag "head"], a ∉ sideTags) a hb (hside a ha)
+        tag "loca"], a ∉ [tag "maxp", tag "head", tag "GDEF", tag "GSUB", tag "GPOS"]) a ha hb
+    · exact (by decide : ∀ a ∈ [tag "maxp", tag "head", tag "GDEF", tag "GSUB", tag "GPOS"], a ∉ sideTags) a hb
+        (hside a ha)
+
+/-- every written table is a mandatory one, a side table, or one of the optional tables that was given -/
+theorem mem_tableBodies' (side : List (Bytes × Bytes)) (hhea hmtx : Bytes) (cm : Option Bytes)
+    (os2 name post glyf loca maxp head : Bytes) (gd gs gp : Option Bytes)
+    (t : Bytes × Bytes) (ht : t ∈ tableBodies side hhea hmtx cm os2 name post glyf loca maxp head gd gs gp) :
+    (t.1 ∈ mandTags ∧ (t.1 = tag "head" → t.2 = head)) ∨ t ∈ side ∨ (t.1 = tag "cmap" ∧ cm = some t.2) ∨
+      (t.1 = tag "GDEF" ∧ gd = some t.2) ∨ (t.1 = tag "GSUB" ∧ gs = some t.2) ∨
+      (t.1 = tag "GPOS" ∧ gp = some t.2) := by
+  unfold tableBodies at ht
+  simp only [List.mem_append, List.mem_cons, List.not_mem_nil, or_false] at ht
+  rcases ht with ((((((((h | h) | hc) | (h | h | h | h | h)) | hsd) | (h | h)) | hgd) | hgs) | hgp)
+  all_goals first
+    | exact Or.inr (Or.inl hsd)
+    | exact Or.inr (Or.inr (Or.inl (mem_optBody _ _ _ hc)))
+    | exact Or.inr (Or.inr (Or.inr (Or.inl (mem_optBody _ _ _ hgd))))
+    | exact Or.inr (Or.inr (Or.inr (Or.inr (Or.inl (mem_optBody _ _ _ hgs)))))
+    | exact Or.inr (Or.inr (Or.inr (Or.inr (Or.inr (mem_optBody _ _ _ hgp)))))
+    | (subst h
+       refine Or.inl ⟨by simp [mandTags], ?_⟩
+       first
+         | (intro _; rfl)
+         | (intro e; exact absurd e (by dsimp only; decide)))
 
 theorem mem_tableBodies (side : List (Bytes × Bytes)) (hhea hmtx : Bytes) (cm : Option Bytes)
-    (os2 name post glyf loca maxp head : Bytes)
-    (t : Bytes × Bytes) (ht : t ∈ tableBodies side hhea hmtx cm os2 name post glyf loca maxp head) :
+    (os2 name post glyf loca maxp head : Bytes) (gd gs gp : Option Bytes)
+    (t : Bytes × Bytes) (ht : t ∈ tableBodies side hhea hmtx cm os2 name post glyf loca maxp head gd gs gp) :
     t.1 ∈ fixedTags ∨ t ∈ side := by
-  unfold tableBodies at ht
-  cases cm with
-  | none =>
-    simp only [cmapBody, List.append_nil, List.mem_append, List.mem_cons, List.not_mem_nil, or_false] at ht
-    rcases ht with ((((h | h) | (h | h | h | h | h)) | h) | (h | h))
-    all_goals first
-      | exact Or.inr h
-      | (subst h; exact Or.inl (by simp [fixedTags]))
-  | some b =>
-    simp only [cmapBody, List.mem_append, List.mem_cons, List.not_mem_nil, or_false] at ht
-    rcases ht with (((((h | h) | h) | (h | h | h | h | h)) | h) | (h | h))
-    all_goals first
-      | exact Or.inr h
-      | (subst h; exact Or.inl (by simp [fixedTags]))
+  rcases mem_tableBodies' _ _ _ _ _ _ _ _ _ _ _ _ _ _ t ht with h | h | h | h | h | h
+  · exact Or.inl (mand_fixed _ h.1)
+  · exact Or.inr h
+  all_goals exact Or.inl (by rw [h.1]; decide)
 
 /-- the head table is the only one under the head tag -/
 theorem head_of_tableBodies (side : List (Bytes × Bytes)) (hs : ∀ t ∈ side, t.1 ∈ sideTags)
-    (hhea hmtx : Bytes) (cm : Option Bytes) (os2 name post glyf loca maxp head : Bytes) (d : Bytes)
-    (hd : (Header.headTag, d) ∈ tableBodies side hhea hmtx cm os2 name post glyf loca maxp head) : d = head := by
-  have hside : (Header.headTag, d) ∉ side := by
-    intro h
-    have := sideTag_ne_head _ (hs _ h)
+    (hhea hmtx : Bytes) (cm : Option Bytes) (os2 name post glyf loca maxp head : Bytes)
+    (gd gs gp : Option Bytes) (d : Bytes)
+    (hd : (Header.headTag, d) ∈ tableBodies side hhea hmtx cm os2 name post glyf loca maxp head gd gs gp) :
+    d = head := by
+  rcases mem_tableBodies' _ _ _ _ _ _ _ _ _ _ _ _ _ _ _ hd with h | h | h | h | h | h
+  · exact h.2 (by dsimp only; decide)
+  · have := sideTag_ne_head _ (hs _ h)
     simp at this
-  unfold tableBodies at hd
-  cases cm with
-  | none =>
-    simp only [cmapBody, List.append_nil, List.mem_append, List.mem_cons, List.not_mem_nil, or_false,
-      Prod.mk.injEq] at hd
-    rcases hd with ((((h | h) | (h | h | h | h | h)) | h) | (h | h))
-    all_goals first
-      | (exact absurd h.1 (by decide))
-      | (exact h.2)
-      | (exact absurd h hside)
-  | some b =>
-    simp only [cmapBody, List.mem_append, List.mem_cons, List.not_mem_nil, or_false, Prod.mk.injEq] at hd
-    rcases hd with (((((h | h) | h) | (h | h | h | h | h)) | h) | (h | h))
-    all_goals first
-      | (exact absurd h.1 (by decide))
-      | (exact h.2)
-      | (exact absurd h hside)
+  all_goals exact absurd h.1 (by dsimp only; decide)
 
-/-- without a cmap entry no written table has the cmap tag -/
-theorem no_cmap_tableBodies (side : List (Bytes × Bytes)) (hs : ∀ t ∈ side, t.1 ∈ sideTags)
-    (hhea hmtx os2 name post glyf loca maxp head : Bytes) (t : Bytes × Bytes)
-    (ht : t ∈ tableBodies side hhea hmtx none os2 name post glyf loca maxp head) : t.1 ≠ tag "cmap" := by
-  unfold tableBodies at ht
-  simp only [cmapBody, List.append_nil, List.mem_append, List.mem_cons, List.not_mem_nil, or_false] at ht
-  rcases ht with ((((h | h) | (h | h | h | h | h)) | h) | (h | h))
-  all_goals first
-    | (subst h; dsimp only; decide)
-    | (intro e
-       have := hs t h
-       rw [e] at this
-       exact absurd this (by decide))
+/-- a tag that is neither mandatory nor a side tag nor the tag of a given optional table is not
+the tag of a written table -/
+theorem absent_tableBodies (side : List (Bytes × Bytes)) (hs : ∀ t ∈ side, t.1 ∈ sideTags)
+    (hhea hmtx : Bytes) (cm : Option Bytes) (os2 name post glyf loca maxp head : Bytes)
+    (gd gs gp : Option Bytes) (n : Bytes) (hm : n ∉ mandTags) (hn : n ∉ sideTags)
+    (h1 : n = tag "cmap" → cm = none) (h2 : n = tag "GDEF" → gd = none)
+    (h3 : n = tag "GSUB" → gs = none) (h4 : n = tag "GPOS" → gp = none)
+    (t : Bytes × Bytes)
+    (ht : t ∈ tableBodies side hhea hmtx cm os2 name post glyf loca maxp head gd gs gp) : t.1 ≠ n := by
+  intro e
+  rcases mem_tableBodies' _ _ _ _ _ _ _ _ _ _ _ _ _ _ t ht with h | h | h | h | h | h
+  · exact hm (e ▸ h.1)
+  · exact hn (e ▸ hs t h)
+  · have := h1 (e ▸ h.1); rw [this] at h; cases h.2
+  · have := h2 (e ▸ h.1); rw [this] at h; cases h.2
+  · have := h3 (e ▸ h.1); rw [this] at h; cases h.2
+  · have := h4 (e ▸ h.1); rw [this] at h; cases h.2
 
 /-- `header.Write` accepts the table map, and `header.Read` + `ReadTableBytes` on its output return
-every table body (head with the checksum adjustment patched in; cmap exactly when it was given) and
-no other side table -/
+every table body (head with the checksum adjustment patched in; cmap, GDEF, GSUB, GPOS exactly when
+they were given), no other side table and no kern table -/
 theorem container_entries (side : List (Bytes × Bytes)) (hs : ∀ t ∈ side, t.1 ∈ sideTags)
     (hnd : (side.map (·.1)).Nodup) (hc : side.length ≤ 4)
     (hhea hmtx : Bytes) (cm : Option Bytes) (os2 name post glyf loca maxp head : Bytes)
+    (gd gs gp : Option Bytes)
     (hhead : 12 ≤ head.length)
-    (hsize : Header.fileSize (Header.named (tableEntries side hhea hmtx cm os2 name post glyf loca maxp head))
-      < 4294967296) :
+    (hsize : Header.fileSize (Header.named
+      (tableEntries side hhea hmtx cm os2 name post glyf loca maxp head gd gs gp)) < 4294967296) :
     ∃ w recs adj,
-      Header.write 0x00010000 (tableEntries side hhea hmtx cm os2 name post glyf loca maxp head) = .ok w ∧
+      Header.write 0x00010000 (tableEntries side hhea hmtx cm os2 name post glyf loca maxp head gd gs gp) =
+        .ok w ∧
       Header.read 280 w.bytes = .ok (0x00010000, recs) ∧
       tableOf w.bytes recs (tag "hhea") = some hhea ∧
       tableOf w.bytes recs (tag "hmtx") = some hmtx ∧
@@ -238,41 +261,49 @@ theorem container_entries (side : List (Bytes × Bytes)) (hs : ∀ t ∈ side, t
       tableOf w.bytes recs (tag "loca") = some loca ∧
       tableOf w.bytes recs (tag "maxp") = some maxp ∧
       tableOf w.bytes recs (tag "head") = some (Header.patchAdj head adj) ∧
+      tableOf w.bytes recs (tag "GDEF") = gd ∧
+      tableOf w.bytes recs (tag "GSUB") = gs ∧
+      tableOf w.bytes recs (tag "GPOS") = gp ∧
+      tableOf w.bytes recs (tag "kern") = none ∧
       (∀ t ∈ side, tableOf w.bytes recs t.1 = some t.2) ∧
       (∀ n ∈ sideTags, (∀ t ∈ side, t.1 ≠ n) → tableOf w.bytes recs n = none) := by
-  have hnamed := named_tableEntries side hs hhea hmtx cm os2 name post glyf loca maxp head
-  have hkeys := keys_tableEntries side hs hnd hhea hmtx cm os2 name post glyf loca maxp head
-  generalize hts : tableEntries side hhea hmtx cm os2 name post glyf loca maxp head = ts at *
-  have hlen : (Header.named ts).length ≤ side.length + 10 := by
-    rw [hnamed]; cases cm <;> simp [tableBodies, cmapBody]
+  have hnamed := named_tableEntries side hs hhea hmtx cm os2 name post glyf loca maxp head gd gs gp
+  have hkeys := keys_tableEntries side hs hnd hhea hmtx cm os2 name post glyf loca maxp head gd gs gp
+  generalize hts : tableEntries side hhea hmtx cm os2 name post glyf loca maxp head gd gs gp = ts at *
+  have hlen : (Header.named ts).length ≤ side.length + 13 := by
+    rw [hnamed]
+    cases cm <;> cases gd <;> cases gs <;> cases gp <;> simp [tableBodies, optBody]
   have hdom : SfntV.Props.C03.Dom ts := ⟨hkeys, hsize, by omega⟩
   have hpr : ∀ t ∈ Header.named ts, ∀ b ∈ t.1, (0x20 : UInt8) ≤ b ∧ b ≤ 0x7e := by
     intro t ht
     rw [hnamed] at ht
-    rcases mem_tableBodies _ _ _ _ _ _ _ _ _ _ _ t ht with h | h
+    rcases mem_tableBodies _ _ _ _ _ _ _ _ _ _ _ _ _ _ t ht with h | h
     · exact fixed_printable t.1 h
     · exact sideTag_printable t.1 (hs t h)
   obtain ⟨w, hw⟩ := (SfntV.Props.C03.C03_ok_iff 0x00010000 ts hkeys).mpr ⟨by
       rw [hnamed]; simp [tableBodies], by
       intro d hd
       rw [hnamed] at hd
-      rw [head_of_tableBodies side hs _ _ _ _ _ _ _ _ _ _ d hd]
+      rw [head_of_tableBodies side hs _ _ _ _ _ _ _ _ _ _ _ _ _ d hd]
       exact hhead⟩
   obtain ⟨recs, adj, hread, hlook, hnone⟩ :=
     container_lookup 0x00010000 (by decide) ts hdom (by omega) hpr w hw
   rw [hnamed] at hlook hnone
   have hfix : ∀ (n b : Bytes), (n == Header.headTag) = false →
-      (n, b) ∈ tableBodies side hhea hmtx cm os2 name post glyf loca maxp head →
+      (n, b) ∈ tableBodies side hhea hmtx cm os2 name post glyf loca maxp head gd gs gp →
       tableOf w.bytes recs n = some b := by
     intro n b hne hm
     have := hlook (n, b) hm
     simpa [storedBody, hne] using this
-  refine ⟨w, recs, adj, hw, hread, ?_, ?_, ?_, ?_, ?_, ?_, ?_, ?_, ?_, ?_, ?_, ?_⟩
+  have habs := absent_tableBodies side hs hhea hmtx cm os2 name post glyf loca maxp head gd gs gp
+  refine ⟨w, recs, adj, hw, hread, ?_, ?_, ?_, ?_, ?_, ?_, ?_, ?_, ?_, ?_, ?_, ?_, ?_, ?_, ?_, ?_⟩
   · exact hfix _ _ (by decide) (by simp [tableBodies])
   · exact hfix _ _ (by decide) (by simp [tableBodies])
   · cases cm with
-    | none => exact hnone _ (no_cmap_tableBodies side hs _ _ _ _ _ _ _ _ _)
-    | some b => exact hfix _ _ (by decide) (by simp [tableBodies, cmapBody])
+    | none =>
+      exact hnone _ (habs _ (by decide) (by decide) (fun _ => rfl) (fun e => absurd e (by decide))
+        (fun e => absurd e (by decide)) (fun e => absurd e (by decide)))
+    | some b => exact hfix _ _ (by decide) (by simp [tableBodies, optBody])
   · exact hfix _ _ (by decide) (by simp [tableBodies])
   · exact hfix _ _ (by decide) (by simp [tableBodies])
   · exact hfix _ _ (by decide) (by simp [tableBodies])
@@ -282,12 +313,29 @@ theorem container_entries (side : List (Bytes × Bytes)) (hs : ∀ t ∈ side, t
   · have := hlook (tag "head", head) (by simp [tableBodies])
     have hh : (tag "head" == Header.headTag) = true := by decide
     simpa [storedBody, hh] using this
+  · cases gd with
+    | none =>
+      exact hnone _ (habs _ (by decide) (by decide) (fun e => absurd e (by decide)) (fun _ => rfl)
+        (fun e => absurd e (by decide)) (fun e => absurd e (by decide)))
+    | some b => exact hfix _ _ (by decide) (by simp [tableBodies, optBody])
+  · cases gs with
+    | none =>
+      exact hnone _ (habs _ (by decide) (by decide) (fun e => absurd e (by decide))
+        (fun e => absurd e (by decide)) (fun _ => rfl) (fun e => absurd e (by decide)))
+    | some b => exact hfix _ _ (by decide) (by simp [tableBodies, optBody])
+  · cases gp with
+    | none =>
+      exact hnone _ (habs _ (by decide) (by decide) (fun e => absurd e (by decide))
+        (fun e => absurd e (by decide)) (fun e => absurd e (by decide)) (fun _ => rfl))
+    | some b => exact hfix _ _ (by decide) (by simp [tableBodies, optBody])
+  · exact hnone _ (habs _ (by decide) (by decide) (fun e => absurd e (by decide))
+      (fun e => absurd e (by decide)) (fun e => absurd e (by decide)) (fun e => absurd e (by decide)))
   · intro t ht
     exact hfix t.1 t.2 (sideTag_ne_head _ (hs t ht)) (by simp [tableBodies, ht])
   · intro n hn hno
     apply hnone
     intro t ht e
-    rcases mem_tableBodies _ _ _ _ _ _ _ _ _ _ _ t ht with h | h
+    rcases mem_tableBodies _ _ _ _ _ _ _ _ _ _ _ _ _ _ t ht with h | h
     · exact fixed_not_side _ h (e ▸ hn)
     · exact hno t h e
 
@@ -296,7 +344,7 @@ theorem container_entries (side : List (Bytes × Bytes)) (hs : ∀ t ∈ side, t
 /-- the abstract table set `readFile` builds from the decoded tables -/
 def tablesRead (c : Int → Int → Int) (H : Metrics.Head) (mx : Metrics.Maxp) (o2 : Metrics.Os2)
     (d : Metrics.Decoded) (dec : List Names.Entry) (cm : Option CmapTable.Table)
-    (p : PostRec × Option (List Names.GName)) (gs : Glyf.Glyphs) : Tables :=
+    (p : PostRec × Option (List Names.GName)) (gs : Glyf.Glyphs) (gd gsb gp : Option Str) : Tables :=
   { scalerCFF := false,
     head := some (recOfHead H),
     hmtx := some { widths := d.widths, ascent := d.ascent, descent := d.descent,
@@ -307,9 +355,23 @@ def tablesRead (c : Int → Int → Int) (H : Metrics.Head) (mx : Metrics.Maxp) 
     post := some p.1,
     cff := none,
     outline := outlineOf gs none cm (namesFor gs.length p.2),
-    gdef := none, gsub := none, gpos := none, kern := none }
+    gdef := gd, gsub := gsb, gpos := gp, kern := none }
 
-theorem readFile_of (c : Int → Int → Int) (f : Bytes) (recs : List (Bytes × Nat × Nat))
+theorem hasDecode_guard (o : Option Bytes) (dec : Bytes → Outcome Str)
+    (h : ∀ b, o = some b → b ≠ [] ∧ dec b = .ok (tokenOfBytes b)) :
+    hasDecode o dec = .ok (o.map tokenOfBytes) := by
+  cases o with
+  | none => rfl
+  | some b =>
+    obtain ⟨hne, hd⟩ := h b rfl
+    have he : b.isEmpty = false := by
+      cases b with
+      | nil => exact absurd rfl hne
+      | cons x r => rfl
+    simp only [hasDecode, he, hd, Option.map]
+    rfl
+
+theorem readFile_of (ld : LayoutDec) (c : Int → Int → Int) (f : Bytes) (recs : List (Bytes × Nat × Nat))
     (hread : Header.read 280 f = .ok (0x00010000, recs))
     (bhead bmaxp bos2 bhhea bhmtx bname bpost bloca bglyf : Bytes)
     (thead : tableOf f recs (tag "head") = some bhead)
@@ -330,9 +392,14 @@ theorem readFile_of (c : Int → Int → Int) (f : Bytes) (recs : List (Bytes ×
     (dC : optDecode (tableOf f recs (tag "cmap")) CmapTable.decode = .ok cm)
     (p : PostRec × Option (List Names.GName)) (dP : decodePostFull bpost = .ok p)
     (gs : Glyf.Glyphs) (dG : Glyf.decode H.locaFormat bloca bglyf = .ok gs)
-    (hT : readErr (tablesRead c H mx o2 d dec cm p gs) = none) :
-    readFile c f = .ok
-      { font := merge (tablesRead c H mx o2 d dec cm p gs), glyphs := gs, maxpTtf := mx.ttf,
+    (gd gsb gp : Option Str)
+    (dGd : hasDecode (tableOf f recs (tag "GDEF")) ld.gdef = .ok gd)
+    (dGs : hasDecode (tableOf f recs (tag "GSUB")) ld.gsub = .ok gsb)
+    (dGp : hasDecode (tableOf f recs (tag "GPOS")) ld.gpos = .ok gp)
+    (tkern : tableOf f recs (tag "kern") = none)
+    (hT : readErr (tablesRead c H mx o2 d dec cm p gs gd gsb gp) = none) :
+    readFile ld c f = .ok
+      { font := merge (tablesRead c H mx o2 d dec cm p gs gd gsb gp), glyphs := gs, maxpTtf := mx.ttf,
         cmap := cm, glyphNames := namesFor gs.length p.2,
         sideTables := sideTags.filterMap fun t =>
           match tableOf f recs t with
@@ -340,7 +407,7 @@ theorem readFile_of (c : Int → Int → Int) (f : Bytes) (recs : List (Bytes ×
           | none => none } := by
   unfold tablesRead at hT ⊢
   unfold readFile
-  simp only [hread, dC]
+  simp only [hread, dC, dGd, dGs, dGp, tkern]
   simp only [thead, tmaxp, tos2, thhea, thmtx, tname, tpost, tloca, tglyf, optDecode,
     dH, dM, dO, dD, dN, dP, dG, Option.map, Option.bind]
   simp only [hT]
@@ -355,7 +422,8 @@ theorem codec_derive_metaOf (env : Env) (F : FileFont) :
         os2 := some (codecOs2 (deriveOs2 (metaOf F))), name := some (deriveName env (metaOf F)),
         post := some (codecPost (derivePost (metaOf F))), cff := none,
         outline := outlineOf F.glyphs none F.cmap F.glyphNames,
-        gdef := none, gsub := none, gpos := none, kern := none } := rfl
+        gdef := F.gdef.map tokenOfBytes, gsub := F.gsub.map tokenOfBytes,
+        gpos := F.gpos.map tokenOfBytes, kern := none } := rfl
 
 theorem deriveHmtx_widths (env : Env) (F : FileFont) (hr : ∀ w ∈ F.widths, isInt16 w) :
     (deriveHmtx env (metaOf F)).widths = F.widths := by
@@ -383,7 +451,8 @@ theorem writeTables_eq (ef : EnvF) (F : FileFont) (enc : Glyf.Encoded) (hhea hmt
       (natsToBytes (Names.nameEncode (nameEntries (deriveName ef.env (metaOf F))) 1))
       (natsToBytes (Names.postEncode (postHdrN (derivePost (metaOf F))) F.glyphNames))
       enc.glyf enc.loca maxp
-      (Metrics.encodeHead (headOf (deriveHead (metaOf F)) (Metrics.fontBBoxModel (F.glyphs.map rectOf)) enc.fmt))) := by
+      (Metrics.encodeHead (headOf (deriveHead (metaOf F)) (Metrics.fontBBoxModel (F.glyphs.map rectOf)) enc.fmt))
+      F.gdef F.gsub F.gpos) := by
   unfold writeTables
   simp only [henc, hws, hm, hmaxp]
   rfl
@@ -521,6 +590,110 @@ influence the result because the post table is present. -/
 theorem file_roundtrip (ld : LayoutDec) (ef : EnvF) (caretOf : Int → Int → Int) (F : FileFont)
     (h : InDomainFile ld ef F) :
     ∃ b, writeFile ef F = .ok b ∧ readFile ld caretOf b = .ok (nfFile F) := by
-  sorry
+  -- glyf / loca
+  obtain ⟨enc, henc, hgdec⟩ := glyf_table F.glyphs h.glyphs
+  have hfmt : (enc.fmt : Int) = locaFmt F.glyphs := by
+    have h1 := Glyf.encode_eq F.glyphs
+    rw [henc] at h1
+    injection h1 with h1
+    rw [h1]
+    unfold locaFmt
+    simp only
+    split <;> rfl
+  rw [hfmt] at hgdec
+  -- hhea / hmtx
+  have hws := deriveHmtx_widths ef.env F h.widthsRange
+  have hgl : 1 ≤ F.glyphs.length := by
+    have := h.glyphs.nonempty
+    cases hg : F.glyphs with
+    | nil => exact absurd hg this
+    | cons a r => simp
+  have hne : F.widths ≠ [] := by
+    intro e
+    have := h.widthsLen
+    rw [e] at this
+    simp at this
+    omega
+  obtain ⟨hhea, hmtx, d, hmenc, hmdec, dw, da, dd, dg, dr, du⟩ :=
+    hmtx_table F.widths (F.glyphs.map rectOf) F.scalars.ascent F.scalars.descent F.scalars.lineGap
+      (ef.riseRun F.scalars.italicAngle).1 (ef.riseRun F.scalars.italicAngle).2
+      hne (by rw [h.widthsLen]; exact h.count) (by rw [List.length_map, h.widthsLen])
+      h.widthsRange h.extents h.ascent h.descent h.lineGap h.caret.1 h.caret.2
+  -- maxp
+  obtain ⟨maxp, hmxenc, hmxdec⟩ := maxp_table F.glyphs.length F.maxpTtf hgl h.count h.maxp
+  -- the table map
+  have hwt := writeTables_eq ef F enc hhea hmtx maxp henc hws hmenc hmxenc
+  rw [hfmt] at hwt
+  -- the container
+  obtain ⟨w, recs, adj, hw, hread, thhea, thmtx, tcmap, tos2, tname, tpost, tglyf, tloca, tmaxp, thead,
+      tgdef, tgsub, tgpos, tkern, tside, tnone⟩ :=
+    container_entries F.sideTables h.sideTags h.sideNodup h.sideCount _ _ _ _ _ _ _ _ _ _ _ _ _
+      (by rw [rt_encodeHead_length]; omega) (h.size _ hwt)
+  refine ⟨w.bytes, ?_, ?_⟩
+  · unfold writeFile
+    rw [hwt]
+    simp only [hw]
+  -- the table decoders
+  obtain ⟨H, hH, hHrec, hHloca⟩ := head_table (deriveHead (metaOf F))
+    (Metrics.fontBBoxModel (F.glyphs.map rectOf)) (locaFmt F.glyphs) adj h.head h.ctime h.mtime
+  obtain ⟨hO, hOrec⟩ := os2_table (deriveOs2 (metaOf F))
+    ⟨(charIndices F.cmap).1, (charIndices F.cmap).2,
+      (Metrics.winMetricsModel (Metrics.fontBBoxModel (F.glyphs.map rectOf))).1,
+      (Metrics.winMetricsModel (Metrics.fontBBoxModel (F.glyphs.map rectOf))).2⟩ h.os2
+  obtain ⟨dec, hN, hNrec⟩ := name_table (deriveName ef.env (metaOf F)) h.name (subfamily_ne_nil (metaOf F))
+  have hP := post_names_table (derivePost (metaOf F)) F.glyphNames (toInt16_range _) (toInt16_range _) h.names
+  have hC : optDecode (tableOf w.bytes recs (tag "cmap")) CmapTable.decode = .ok F.cmap := by
+    rw [tcmap]; exact cmap_read F h.cmap
+  have hnf : namesFor F.glyphs.length (codecPost (derivePost (metaOf F)), F.glyphNames).2 = F.glyphNames :=
+    namesFor_self _ _ h.namesLen
+  rw [← hHloca] at hgdec
+  -- the abstract table set is `codec (derive env' (metaOf F))`
+  have hT : tablesRead caretOf H ⟨F.glyphs.length, some F.maxpTtf⟩
+      (os2Read (deriveOs2 (metaOf F))
+        ⟨(charIndices F.cmap).1, (charIndices F.cmap).2,
+          (Metrics.winMetricsModel (Metrics.fontBBoxModel (F.glyphs.map rectOf))).1,
+          (Metrics.winMetricsModel (Metrics.fontBBoxModel (F.glyphs.map rectOf))).2⟩)
+      d dec F.cmap (codecPost (derivePost (metaOf F)), F.glyphNames) F.glyphs
+      (F.gdef.map tokenOfBytes) (F.gsub.map tokenOfBytes) (F.gpos.map tokenOfBytes) =
+      codec (derive { ef.env with caretOf := fun _ => caretOf d.rise d.run } (metaOf F)) := by
+    rw [codec_derive_metaOf, deriveHmtx_eq _ F h.widthsRange]
+    unfold tablesRead
+    simp only [hHrec, hOrec, hNrec, hnf, dw, da, dd, dg, Int.toNat_natCast]
+    rfl
+  have hM : InDomain (metaOf F) := inDomain_metaOf F h.widthsLen h.version
+  have hGd : hasDecode (tableOf w.bytes recs (tag "GDEF")) ld.gdef = .ok (F.gdef.map tokenOfBytes) := by
+    rw [tgdef]; exact hasDecode_guard _ _ h.gdef
+  have hGs : hasDecode (tableOf w.bytes recs (tag "GSUB")) ld.gsub = .ok (F.gsub.map tokenOfBytes) := by
+    rw [tgsub]; exact hasDecode_guard _ _ h.gsub
+  have hGp : hasDecode (tableOf w.bytes recs (tag "GPOS")) ld.gpos = .ok (F.gpos.map tokenOfBytes) := by
+    rw [tgpos]; exact hasDecode_guard _ _ h.gpos
+  rw [readFile_of ld caretOf w.bytes recs hread _ _ _ _ _ _ _ _ _ thead tmaxp tos2 thhea thmtx tname tpost tloca tglyf
+    H hH _ hmxdec _ hO d hmdec dec hN F.cmap hC _ hP F.glyphs hgdec _ _ _ hGd hGs hGp tkern
+    (by rw [hT]; exact write_accepted _ _ hM)]
+  rw [hT, read_write _ _ hM, hnf]
+  -- side tables
+  have hside : (sideTags.filterMap fun t =>
+        match tableOf w.bytes recs t with
+        | some b => if b.isEmpty then none else some (t, b)
+        | none => none) =
+      sideTags.filterMap fun t =>
+        match F.sideTables.find? (·.1 == t) with
+        | some p => if p.2.isEmpty then none else some (t, p.2)
+        | none => none := by
+    apply List.filterMap_congr
+    intro t ht
+    cases hf : F.sideTables.find? (·.1 == t) with
+    | none =>
+      have hno := List.find?_eq_none.mp hf
+      rw [tnone t ht (fun x hx e => hno x hx (by simp [e]))]
+    | some p =>
+      have hp : p ∈ F.sideTables := List.mem_of_find?_eq_some hf
+      have hpt : p.1 = t := by simpa using List.find?_some hf
+      have := tside p hp
+      rw [hpt] at this
+      rw [this]
+  rw [hside]
+  rfl
+
 
 end SfntV.FontFile
